@@ -23,11 +23,12 @@ func init() {
 	})
 }
 
-// generatorMapRangeExceptions: sites confirmed by reading, one line of reason each.
+// generatorMapRangeExceptions: sites confirmed by reading, one line of reason each.  Keyed by function AND ranged
+// expression: another map range added to the same function is classified on its own.
 var generatorMapRangeExceptions = map[string]string{
-	"cmd.GenerateCode":              "each key yields one CodeFile written to its own file name derived from the key; the order files are written in does not affect their content",
-	"cmd.GenerateCustomTyperefInit": "one init file per package key; the inner identifier set is visited through the sorting IdentifierSet.Range",
-	"cmd.GenerateAllImportsTest":    "anonymous imports added in map order: jennifer renders the import block sorted by path",
+	"cmd.GenerateCode|range over utils.TypeRegistry.TypesInPackageRoot(inputManifest.PackageRoot)": "each key yields one CodeFile written to its own file name derived from the key; the order files are written in does not affect their content",
+	"cmd.GenerateCustomTyperefInit|range over customTyperefs":                                      "one init file per package key; the inner identifier set is visited through the sorting IdentifierSet.Range",
+	"cmd.GenerateAllImportsTest|range over imports":                                                "anonymous imports added in map order: jennifer renders the import block sorted by path",
 }
 
 func runR123(c *core.Ctx) {
@@ -68,7 +69,7 @@ func runR123(c *core.Ctx) {
 			c.OK(s.rel, s.fn, construct, s.pos, "idiom "+idiom)
 			continue
 		}
-		if why, ok := generatorMapRangeExceptions[s.rel+"."+s.fn]; ok {
+		if why, ok := generatorMapRangeExceptions[s.rel+"."+s.fn+"|"+s.kind]; ok {
 			c.OK(s.rel, s.fn, construct, s.pos, "confirmed exception: "+why+" (classifier said: "+bad+")")
 			continue
 		}
@@ -113,4 +114,29 @@ func classifyControl(c *core.Ctx, src string) string {
 		})
 	}
 	return res
+}
+
+func init() {
+	core.Register(&core.Rule{
+		ID:    "R12.5",
+		Title: "the package-cycle search keeps no memo",
+		Text: "typeRegistry.findCycle stores nothing through the registry (mutation summary over its body and the registry methods it calls): whether a node closes a package cycle depends on the path it was reached by, " +
+			"so a per-node memo kept across start nodes hides cycles and the generated packages import each other. Only flagCyclic (called by the driver loop, not by the search) may write.",
+		Props: []string{"C12"},
+		Floor: map[string]int{"v2": 1, "root": 1},
+		Run:   runR125,
+	})
+}
+
+func runR125(c *core.Ctx) {
+	const rel = "codegen/utils"
+	name := "(*typeRegistry).findCycle"
+	if c.M.LookupFunc(rel, name) == nil {
+		name = "(typeRegistry).FindCycle" // root module: exported, map-typed value receiver
+	}
+	f := mustFunc(c, rel, name)
+	mut := mutatingMethods(c)
+	fd := c.M.Decl(f)
+	c.Check(!mut[f], rel, name, "the search does not write to the registry", fd.Pos(), "no store or mutating call through the receiver",
+		"findCycle (or a registry method it calls) stores through the registry: state kept across searches makes the result depend on the order of earlier searches")
 }
